@@ -75,27 +75,77 @@ let () = iter_lines (fun line ->
         Buffer.add_string buf (string_of_z (Gen_P4.coq_GetHashCodePart (zi hc) !st (z_of_string full) (z_of_string bidx) (z_of_string l) (z_of_string nl) (zi 1000) (z_of_string idx)) ^ ";"); go r
       | _ -> () in
     go ops; print_endline (Buffer.contents buf)
-  | "tbl" :: l :: nl :: hs ->
+  | ("tbl" | "tbl2") :: rest0 ->
+    let is2 = (List.hd (words line) = "tbl2") in
+    let (l, l1, l2, budget, rem, hs) =
+      if not is2 then (match rest0 with l :: l1 :: hs -> (l, l1, "0", -1, [], hs) | _ -> ("0", "0", "0", -1, [], []))
+      else (match rest0 with l :: l1 :: l2 :: b :: nrem :: r ->
+              let (rem, hs) = take (int_of_string nrem) r in (l, l1, l2, int_of_string b, rem, hs)
+            | _ -> ("0", "0", "0", -1, [], [])) in
     let tab = Array.of_list (zi 0 :: zs hs) in
     let hash k = let i = int_of_z k in if i >= 0 && i < Array.length tab then tab.(i) else zi 0 in
     let keys = List.init (List.length hs) (fun i -> zi (i + 1)) in
-    let lz = z_of_string l and nlz = z_of_string nl in
+    let lz = z_of_string l and l1z = z_of_string l1 and l2z = z_of_string l2 in
+    let pow2 x = 1 lsl (int_of_string x) in
+    let big = zi 1000000000 in
+    let dump tnew nl calls gens =
+      let buf = Buffer.create 256 in
+      Buffer.add_string buf (Printf.sprintf "calls=%s gens=%d " (string_of_z calls) gens);
+      for i = 0 to pow2 nl - 1 do
+        let b = tnew (zi i) in
+        let s0 = int_of_z (b.TableO2.bst (zi 0)) and s1 = int_of_z (b.TableO2.bst (zi 1)) in
+        if s0 <> 0 || s1 <> 0 then begin
+          let c = s1 land 3 in
+          Buffer.add_string buf (Printf.sprintf "%d:%d,%d" i s0 s1);
+          for j = 0 to 2 do
+            Buffer.add_string buf ("|" ^ string_of_z (b.TableO2.bsh (zi j)));
+            if j >= 3 - c then Buffer.add_string buf ("," ^ string_of_z (b.TableO2.bhp (zi j)) ^ "," ^ string_of_z (b.TableO2.bky (zi j)))
+          done;
+          Buffer.add_string buf ";" end
+      done;
+      print_endline (Buffer.contents buf) in
     (match TableO2.insert_all hash TableO2.empty_table lz keys with
-     | Ok told ->
-       (match TableO2.migrate hash told lz nlz with
-        | Ok (_, tnew) ->
+     | Ok t0 ->
+       let t0 = List.fold_left (fun t k ->
+         match TableO2.locate_from (nat_of_int (pow2 l)) t (zi 0) (z_of_string k) with
+         | Some (b, slot) -> (match TableO2.remove_at t b slot with Ok t' -> t' | _ -> t)
+         | None -> t) t0 rem in
+       (match TableO2.migrate_from_c hash (nat_of_int (pow2 l)) t0 TableO2.empty_table lz l1z (zi 0) (if budget < 0 then big else zi budget) (zi 0) with
+        | Ok (((t0', t1), c1), thrown) ->
+          let gens1 = if thrown then 2 else 1 in
+          if int_of_string l2 = 0 then dump t1 l1 c1 gens1
+          else
+            let gens = if thrown then [(t0', lz); (t1, l1z)] else [(t1, l1z)] in
+            (match TableO2.migrate_gens hash gens TableO2.empty_table l2z big c1 with
+             | Ok (((_, t2), c2), _) -> dump t2 l2 c2 gens1
+             | Stuck -> print_endline "Stuck" | Fuel -> print_endline "Fuel" | Exn -> print_endline "Exn")
+        | Stuck -> print_endline "Stuck" | Fuel -> print_endline "Fuel" | Exn -> print_endline "Exn")
+     | _ -> print_endline "insert-failed")
+  | "tp4" :: hcs :: l :: l1 :: nrem :: r ->
+    let hc = zi (int_of_string hcs) in
+    let (rem, hs) = take (int_of_string nrem) r in
+    let tab = Array.of_list (zi 0 :: zs hs) in
+    let hash k = let i = int_of_z k in if i >= 0 && i < Array.length tab then tab.(i) else zi 0 in
+    let keys = List.init (List.length hs) (fun i -> zi (i + 1)) in
+    let lz = z_of_string l and l1z = z_of_string l1 in
+    let pow2 x = 1 lsl (int_of_string x) in
+    (match TableP4.pinsert_all hc hash (TableP4.pempty_table hc mm) lz keys with
+     | Ok t0 ->
+       let t0 = List.fold_left (fun t k ->
+         match TableP4.plocate_from (nat_of_int (pow2 l)) t (zi 0) (z_of_string k) with
+         | Some (b, idx) -> (match TableP4.premove_at hc mm t b idx with Ok t' -> t' | _ -> t)
+         | None -> t) t0 rem in
+       (match TableP4.pmigrate hc mm hash t0 lz l1z with
+        | Ok ((_, t1), calls) ->
           let buf = Buffer.create 256 in
-          let n = 1 lsl (int_of_string nl) in
-          for i = 0 to n - 1 do
-            let b = tnew (zi i) in
-            let s0 = int_of_z (b.TableO2.bst (zi 0)) and s1 = int_of_z (b.TableO2.bst (zi 1)) in
-            if s0 <> 0 || s1 <> 0 then begin
-              let c = s1 land 3 in
-              Buffer.add_string buf (Printf.sprintf "%d:%d,%d" i s0 s1);
-              for j = 0 to 2 do
-                Buffer.add_string buf ("|" ^ string_of_z (b.TableO2.bsh (zi j)));
-                if j >= 3 - c then Buffer.add_string buf ("," ^ string_of_z (b.TableO2.bhp (zi j)) ^ "," ^ string_of_z (b.TableO2.bky (zi j)))
-              done;
+          Buffer.add_string buf (Printf.sprintf "calls=%s min=%s " (string_of_z calls) (string_of_z mm));
+          for i = 0 to pow2 l1 - 1 do
+            let b = t1 (zi i) in
+            let c = int_of_z (Gen_P4.pvGetCount b.TableP4.ps) and mpi = int_of_z b.TableP4.pmpi in
+            if c <> 0 || mpi <> int_of_z mm then begin
+              Buffer.add_string buf (Printf.sprintf "%d:%d%s" i mpi (if mpi = 4 then "W" else "w"));
+              for j = 0 to int_of_z hc - 1 do Buffer.add_string buf ("|" ^ string_of_z (b.TableP4.ps (zi j))) done;
+              for j = 0 to c - 1 do Buffer.add_string buf ("," ^ string_of_z (b.TableP4.pky (zi j))) done;
               Buffer.add_string buf ";" end
           done;
           print_endline (Buffer.contents buf)
